@@ -22,7 +22,7 @@ VERIF = Path(__file__).resolve().parents[1]
 REPO = Path(os.environ.get('HOMONIM_REPO', '/repo'))
 OUT = VERIF / 'coq' / 'gen' / 'Pipeline.v'
 sys.path.insert(0, str(VERIF))
-from translate.resolve import Flow, helper_inliner      # noqa: E402
+from translate.resolve import Flow, helper_inliner, parse_source      # noqa: E402
 
 
 class TranslatorError(Exception):
@@ -116,7 +116,7 @@ def mask_kind(v, src_p, coverage_of):
 
 def generate():
     out = []
-    km = ast.parse((REPO / 'homonim' / 'kernel_model.py').read_text())
+    km = parse_source((REPO / 'homonim' / 'kernel_model.py').read_text())
     # ---------------------------------------------------------------- _get_resampling
     f = find_func(km, 'KernelModel', '_get_resampling')
     fl = Flow(f, module=km)
@@ -263,7 +263,7 @@ def generate():
         mt = mf = 'MOther'
     out.append(f'Definition gen_src_fit_mask (mask_partial : bool) : mask_from := if mask_partial then {mt} else {mf}.')
     # ---------------------------------------------------------------- fuse._process_block
-    fu = ast.parse((REPO / 'homonim' / 'fuse.py').read_text())
+    fu = parse_source((REPO / 'homonim' / 'fuse.py').read_text())
     f = find_func(fu, 'RasterFuse', '_process_block')
     fl = Flow(f, inline=helper_inliner(fu, 'RasterFuse', keep=('read', 'block_pairs')))
     bp, md = fl.params[1], fl.params[2]
@@ -311,13 +311,12 @@ def generate():
                 okm = a == [fl.params[2], fl.params[3]] and k.get('find_r2', '').endswith('is not None') and len(star(r)) == 1
     out.append(f'Definition gen_model_choice_ok : bool := {"true" if okm else "false"}.    (* source grid -> SrcSpaceModel, reference grid -> RefSpaceModel; model, kernel shape, find_r2 iff a parameter file, model configuration *)')
     # ---------------------------------------------------------------- compare.get_block_sums: re-projection by grid
-    cm = ast.parse((REPO / 'homonim' / 'compare.py').read_text())
+    cm = parse_source((REPO / 'homonim' / 'compare.py').read_text())
     f = find_func(cm, 'RasterCompare', 'process', 'get_block_sums')
     fl = Flow(f)
     un = [s for s in fl.order if isinstance(s, ast.Assign) and isinstance(s.targets[0], ast.Tuple) and U(s.value) == f'self.read({fl.params[0]})']
     okc = False
-    if len(un) == 1 and len(un[0].targets[0].elts) == 2:
-        sN, rN = (U(e) for e in un[0].targets[0].elts)
+    def reprojections(f, fl, sN, rN):
         seen = {}
         for s in fl.order:
             if isinstance(s, ast.Assign) and len(s.targets) == 1 and U(s.targets[0]) in (sN, rN):
@@ -336,6 +335,21 @@ def generate():
                 x, g2, nod, r = parts
                 rule = isinstance(r, ast.Call) and U(r.func) == 'self._get_resampling' and [U(a_) for a_ in r.args[:2]] == [f'{U(x)}.res', f'{g2}.res']
                 seen[grid] = (who, U(x) == (sN if who == 'src' else rN), g2 == (rN if who == 'src' else sN), nod == '', rule)
+        return seen
+    if len(un) == 1 and len(un[0].targets[0].elts) == 2:
+        sN, rN = (U(e) for e in un[0].targets[0].elts)
+        seen = reprojections(f, fl, sN, rN)
+        if not seen:
+            # ... or in a method of the class that is handed the two arrays (and hands them back): the same analysis on its body
+            meths = {m.name: m for c in cm.body if isinstance(c, ast.ClassDef) and c.name == 'RasterCompare' for m in c.body if isinstance(m, ast.FunctionDef)}
+            for s in fl.order:
+                if isinstance(s, ast.Assign) and isinstance(s.targets[0], ast.Tuple) and [U(e) for e in s.targets[0].elts] == [sN, rN] and isinstance(s.value, ast.Call) \
+                        and U(s.value.func).startswith('self.') and U(s.value.func)[5:] in meths and [U(a_) for a_ in s.value.args[:2]] == [sN, rN]:
+                    h = meths[U(s.value.func)[5:]]
+                    hp = [a_.arg for a_ in h.args.posonlyargs + h.args.args if a_.arg != 'self']
+                    rets = [n for n in ast.walk(h) if isinstance(n, ast.Return)]
+                    if len(hp) >= 2 and len(rets) == 1 and U(rets[0].value) in (f'({hp[0]}, {hp[1]})', f'{hp[0]}, {hp[1]}'):
+                        seen = reprojections(h, Flow(h), hp[0], hp[1])
         okc = seen == {'ref': ('src', True, True, True, True), 'src': ('ref', True, True, True, True)}
     out.append(f'Definition gen_compare_reproject_ok : bool := {"true" if okc else "false"}.   (* reference grid: source onto it; source grid: reference onto it; kernel by the rule from -> to *)')
     return out
